@@ -719,7 +719,9 @@ hdf_write_dim(XDR *xdrs, NC *handle, NC_dim **dim, int32 cnt)
     else
         class = _HDF_DIMENSION;
 
-    if (strncmp((*dim)->name->values, "fakeDim", 7) == 0)
+    /* renumber the default names SDcreate gives ("fakeDim<n>"), not a user's name that merely starts like them */
+    if (strncmp((*dim)->name->values, "fakeDim", 7) == 0 && (*dim)->name->values[7] != '\0' &&
+        strspn((*dim)->name->values + 7, "0123456789") == strlen((*dim)->name->values + 7))
         sprintf(name, "fakeDim%d", (int)cnt);
     else
         strcpy(name, (*dim)->name->values);
